@@ -167,6 +167,28 @@ theorem strljustify_s_fp (cfg : Cfg) (dest dmax : Nat) (b : Bos) (s : St) :
     Within2 (StrObj s.data dest (dmax + 1)) (Obj dest dmax) (strljustify_s cfg dest dmax b) s :=
   AccS.within2 (Q := fun _ _ => True) (strljustify_s_accs cfg dest dmax b (fun h _ ha => ⟨h, ha⟩) (fun h _ ha => ⟨h, ha⟩)) s rfl
 
+/-! ## the in-place setters (`AccS`): strset_s, strzero_s, strnset_s, wcsset_s, wcsnset_s -/
+
+theorem strset_s_fp (cfg : Cfg) (dest dmax value : Nat) (b : Bos) (s : St) :
+    Within2 (StrObj s.data dest (dmax + 1)) (Obj dest dmax) (strset_s cfg dest dmax value b) s :=
+  AccS.within2 (Q := fun _ _ => True) (strset_s_accs cfg dest dmax value b (fun h _ ha => ⟨h, ha⟩) (fun h _ ha => ⟨h, ha⟩)) s rfl
+
+theorem strzero_s_fp (cfg : Cfg) (dest dmax : Nat) (b : Bos) (s : St) :
+    Within2 (StrObj s.data dest (dmax + 1)) (Obj dest dmax) (strzero_s cfg dest dmax b) s :=
+  AccS.within2 (Q := fun _ _ => True) (strzero_s_accs cfg dest dmax b (fun h _ ha => ⟨h, ha⟩) (fun h _ ha => ⟨h, ha⟩)) s rfl
+
+theorem strnset_s_fp (cfg : Cfg) (dest dmax value n : Nat) (b : Bos) (s : St) :
+    Within2 (fun a => n ≤ dmax ∧ StrObj s.data dest (n + 1) a) (Obj dest dmax) (strnset_s cfg dest dmax value n b) s :=
+  AccS.within2 (Q := fun _ _ => True) (strnset_s_accs cfg dest dmax value n b (fun h hn _ ha => ⟨hn, h, ha⟩) (fun h _ ha => ⟨h, ha⟩)) s rfl
+
+theorem wcsset_s_fp (cfg : Cfg) (dest dmax value : Nat) (b : Bos) (s : St) :
+    Within2 (StrObj s.data dest (dmax + 1)) (Obj dest dmax) (wcsset_s cfg dest dmax value b) s :=
+  AccS.within2 (Q := fun _ _ => True) (wcsset_s_accs cfg dest dmax value b (fun h _ ha => ⟨h, ha⟩) (fun h _ ha => ⟨h, ha⟩)) s rfl
+
+theorem wcsnset_s_fp (cfg : Cfg) (dest dmax value n : Nat) (b : Bos) (s : St) :
+    Within2 (fun a => n ≤ dmax ∧ StrObj s.data dest (n + 1) a) (Obj dest dmax) (wcsnset_s cfg dest dmax value n b) s :=
+  AccS.within2 (Q := fun _ _ => True) (wcsnset_s_accs cfg dest dmax value n b (fun h hn _ ha => ⟨hn, h, ha⟩) (fun h _ ha => ⟨h, ha⟩)) s rfl
+
 /-! ## string queries (`AccD`): read-only, footprint = the strings up to their terminators -/
 
 theorem strcmp_s_fp (dest dmax src : Nat) (db sb : Bos) (s : St) :
@@ -203,6 +225,19 @@ theorem memcpy_s_reentrant_n (dest dmax src slen : ι → Nat) (db sb : ι → B
     sch (fun j => (⟨Nat, memcpy_s (dest j) (dmax j) (src j) (slen j) (db j) (sb j)⟩ : Thread)) s
     (fun j => memcpy_s_fp (dest j) (dmax j) (src j) (slen j) (db j) (sb j) (hU j) s) i hd
   exact ⟨h.1, fun a ha => h.2 a (Or.inr ha)⟩
+
+/-- non-vacuity of the hypotheses of `memcpy_s_reentrant_n`: two threads copy 8 bytes from the SAME source at
+300 into the disjoint destinations 100 and 200 -/
+example : (∀ i j : Fin 2, i ≠ j → ∀ a, Obj (100 + 100 * i.val) 16 a → ¬ Obj (100 + 100 * j.val) 16 a) ∧
+    (∀ i j : Fin 2, i ≠ j → ∀ a, Obj (100 + 100 * i.val) 16 a → ¬ Obj 300 8 a) := by
+  constructor
+  · intro i j hij a ⟨_, h1, h2⟩ ⟨_, h3, h4⟩
+    have : i.val ≠ j.val := fun e => hij (Fin.ext e)
+    have := i.isLt; have := j.isLt
+    omega
+  · intro i j _ a ⟨_, h1, h2⟩ ⟨_, h3, h4⟩
+    have := i.isLt
+    omega
 
 /-- **N concurrent tokenizer calls** on thread-private strings: the delimiter sets may be shared (they are
 only read); each returned call gives its run-alone token and leaves its run-alone string -/
